@@ -47,9 +47,23 @@ for (name, src, enc, dec, align, ref, (nq, nt)) in FILTERS:
             stubs=["oracle: refs.h " + ref + " (independent, from the instruction formats / LZMA SDK Bra86.c)"],
             **common))
 
+for (name, src, enc, dec, align, ref, (nq, nt)) in FILTERS:
+    defs = ['FSRC="%s"' % src, "FENC=" + enc, "FDEC=" + dec, "FALIGN=%d" % align]
+    if name == "x86":
+        defs.append("IS_X86")
+    kq = {"x86": 7, "ia64": 18, "riscv": 12}.get(name, 8)
+    kt = {"x86": 11, "ia64": 34, "riscv": 18}.get(name, 14)
+    OBLIGATIONS.append(Obligation(
+        name="bcj_%s_kernel_split" % name, src="bcj.c", func="harness_kernel_split", defs=defs,
+        qdefs=["NMAX=%d" % kq], tdefs=["NMAX=%d" % kt], qunwind=kq + 2, tunwind=kt + 2, native_units=NAT,
+        flags=["--object-bits", "10"], timeout_q=280, timeout_t=1800, functions=[enc] + ([dec] if dec != enc else []),
+        desc="%s kernel called twice (prefix of symbolic length k, then the unprocessed rest with advanced position and carried state, as simple_code() does) == called once on the whole buffer: same bytes, same total processed count%s" % (name, "" if name == "x86" else ""),
+        bounds_q="n <= %d bytes, symbolic cut k, every aligned position, both directions" % kq,
+        bounds_t="n <= %d bytes" % kt))
+
 # streaming coder with arbitrary slicing vs one-shot (also serves C06)
 STREAM = [  # name, quick (N, calls), thorough (N, calls)
-    ("x86", (6, 2), (8, 2)), ("arm", (5, 2), (12, 3)), ("armthumb", (6, 3), (10, 3)),
+    ("x86", (6, 2), (6, 2)), ("arm", (5, 2), (12, 3)), ("armthumb", (6, 3), (10, 3)),
     ("arm64", (8, 3), (12, 3)), ("powerpc", (8, 3), (12, 3)), ("sparc", (8, 3), (12, 3)),
     ("ia64", (17, 2), (33, 3)), ("riscv", (10, 2), (14, 3)),
 ]
@@ -67,9 +81,9 @@ for (name, (nq, cq), (nt, ct)) in STREAM:
           name="bcj_%s_split_%s" % (name, direction), src="stream.c", func="harness_split", defs=defs,
           qdefs=["NMAX=%d" % nq, "CALLS=%d" % cq, "DRAIN=2"], tdefs=["NMAX=%d" % nt, "CALLS=%d" % ct],
           qunwind=nq + 2, tunwind=nt + 3, units=[S + "common/common.c"],
-          flags=["--object-bits", "10"], timeout_q=280, timeout_t=1800,
+          flags=["--object-bits", "10"], timeout_q=280,
           fp_restrict=["copy_or_code.function_pointer_call.1/passthru_code"],
-          tiers=("quick", "thorough") if name in ("x86", "arm") else ("thorough",),
+          tiers=("quick", "thorough") if name in ("arm",) else ("thorough",), timeout_t=3600,
           functions=["simple_code", "call_filter", "copy_or_code", "lzma_simple_coder_init",
                      enc, dec, "lzma_bufcpy", "lzma_next_filter_init", "lzma_alloc"],
           stubs=["next coder in the decoder direction = pass-through that returns STREAM_END "
